@@ -32,8 +32,8 @@ ASSUMPTIONS = [
     "numeric-root options: is_exact=True implies exact equality; any difference implies is_exact=False; deviation bound 1e-3 relative "
     "for n<=7 at eps<=1e-6 is deliberately loose (gross errors only)",
     "trivial_guard is excluded (changes meaning by design); exact_func_moments is not a C17 option (only subject to C20)",
-    "known finding F3 (C05) makes some results wrong for programs in which a variable is assigned twice under a loop guard; the same "
-    "wrong typing is used under every option vector except explicit types, where only original variables can be declared",
+    "with declared types and inference disabled only original variables can be typed; programs whose conditions need the type of an "
+    "auxiliary variable are then refused, which is not a violation",
 ]
 
 
